@@ -85,7 +85,19 @@ def regenerate(drv_exe, repo=REPO):
     if r.returncode != 0 or "namespace Op2.Gen.Layout" not in r.stdout:
         info["problems"].append("layout.dump failed: " + r.stderr[-500:])
     else:
-        if _write_if_changed(os.path.join(GEN, "Layout.lean"), r.stdout): info["changed"].append("Layout.lean")
+        text = r.stdout
+        # facts the probes could not measure on this tree (private records / members renamed or moved: layout.cpp was built with
+        # LAYOUT_PUBLIC_ONLY) keep their pinned values, so the theorems still build; they are listed as layout_unmeasured
+        pinned_path = os.path.join(os.path.dirname(os.path.abspath(__file__)), "pinned_layout.json")
+        have = dict((m.group(1), m.group(0)) for m in re.finditer(r"^def (\w+) : [^\n]*$", text, re.M))
+        try:
+            with open(pinned_path) as f: pinned_layout = json.load(f)
+        except Exception: pinned_layout = {}
+        missing = [k for k in pinned_layout if k not in have]
+        if missing:
+            info["layout_unmeasured"] = missing
+            text = text.replace("end Op2.Gen.Layout", "-- not measured on this tree (pinned values):\n" + "\n".join(pinned_layout[k] for k in missing) + "\nend Op2.Gen.Layout")
+        if _write_if_changed(os.path.join(GEN, "Layout.lean"), text): info["changed"].append("Layout.lean")
     txt, fb = c2lean.generate(repo)
     info["fallback"] = fb
     if _write_if_changed(os.path.join(GEN, "Formulas.lean"), txt): info["changed"].append("Formulas.lean")
